@@ -36,7 +36,7 @@ SynRanges ==
       ts \in { <<B(cA), B(cX)>>, <<B(cA), B(STAR)>>, <<B(STAR), <<>>>> },
       hq \in BOOLEAN, q \in { Q(0, <<5>>), Q(0, <<>>), Q(1, <<0>>) },
       pb \in { <<>>, <<Par(<<108>>, <<34, 120, 92, 34, 121, 34>>)>>, <<Par(<<115, 113>>, <<48>>)>> },   \* l="x\"y" (quoted-pair) ; sq=0
-      pa \in { <<>>, <<Par(<<101>>, <<49>>)>> },                                        \* e=1
+      pa \in { <<>>, <<Par(<<101>>, <<49, 47, 50, 58, 64>>)>> },                        \* e=1/2:@  (a value need not be a token)
       ws \in { <<>>, <<32>> }, lead \in BOOLEAN }
 SynPool == { r \in SynRanges : /\ (~r.hasq => (r.pa = <<>> /\ r.q = Q(0, <<5>>) /\ r.lead))   \* canonical when unused
                                /\ (r.q.i = 1 => r.lead) }
